@@ -18,6 +18,7 @@ extern size_t __sanitizer_get_current_allocated_bytes(void);   /* ASan runtime *
 #include "meta.h"
 #include "types.h"
 #include "node.h"
+#include "parse.h"
 
 #define MAXN 8192
 struct ent { MPT_STRUCT(node) *p; int alive; int seen; };
@@ -317,6 +318,34 @@ int main(void)
 				continue;
 			}
 			result_n("ok", reg(a));
+		}
+		else if (!strcmp(op, "newsmall") && drv_nw == 4) {
+			/* a node of the smallest size: a longer name is stored outside the node */
+			size_t nl = strlen(drv_w[2]);
+			if (nl > 600 || strlen(drv_w[3]) > 200) { puts("bad-op"); continue; }
+			if (!(a = mpt_node_new(0))) { result("refused", "null"); continue; }
+			if (set_name(a, drv_w[2]) < 0 || set_value(a, drv_w[3]) < 0) {
+				mpt_node_destroy(a);
+				result("refused", "null");
+				continue;
+			}
+			result_n("ok", reg(a));
+		}
+		else if (!strcmp(op, "nparse") && drv_nw == 5 && (!strcmp(drv_w[4], "empty") || !strcmp(drv_w[4], "broken"))) {
+			/* mpt_node_parse(node, <empty or syntactically broken input>, default format, <limits>): a refused call
+			 * leaves the node as it was, an accepted one replaces the children by what was read (nothing) */
+			const char *lim = drv_w[3];
+			int broken_in = drv_w[4][0] == 'b', want;
+			FILE *fd;
+			if (get_tok(drv_w[2], &a) < 0) { puts("bad-op"); continue; }
+			want = !broken_in && strspn(lim, "fcnswebFCNSWEB") == strlen(lim);
+			if (!(fd = tmpfile())) { puts("bad-op"); continue; }
+			if (broken_in) { fputs("[sect\n a = {\n", fd); rewind(fd); }
+			if (want) mark_dead_list(a->children, 0);
+			pos = mpt_node_parse(a, fd, 0, lim, 0);
+			fclose(fd);
+			if (want && pos < 0) { snprintf(broken, sizeof(broken), "BROKEN:parse-refused"); sticky = 1; }
+			result_n(pos < 0 ? "refused" : "ok", pos < 0 ? pos : 0);
 		}
 		else if ((!strcmp(op, "after") || !strcmp(op, "before")) && drv_nw == 4) {
 			if (get_tok(drv_w[2], &a) < 0 || get_tok(drv_w[3], &b) < 0) { puts("bad-op"); continue; }
